@@ -463,6 +463,12 @@ def silent(rep, tier):
         env_o.update({"a": A("ra"), "w": 2 + A("u") + A("tt"), "z0": A("ra") + 1 + A("u")})
         cr.add("O20.fires.sliced-beyond(D=%d)" % D, "O20.fires", D, ["a", "w"], "auto&& s = v.sliced(a, a + w); out[0] = s.size();", {(0, "must-assert"): P.const(0)},
                cases=[dict(env_o, __signs=sg2, __expect_assert=True)])
+        # out of domain: a non-empty request that starts beyond the extension, written in decreasing order (eighth seed round: the "empty slices are
+        # allowed anywhere" escape of the bound assertions was widened to every decreasing pair)
+        env_r = dict(env2)
+        env_r.update({"a": 2 + A("tt") + A("ra"), "w": -1 - A("u"), "z0": 1 + A("tt")})
+        cr.add("O20.fires.sliced-reversed-beyond(D=%d)" % D, "O20.fires", D, ["a", "w"], "auto&& s = v.sliced(a, a + w); out[0] = s.size();", {(0, "must-assert"): P.const(0)},
+               cases=[dict(env_r, __signs=sg2, __expect_assert=True)])
     # taked(n) / dropped(n), D = 1 and 2: a count within [0, size] is silent and gives the stated size, a count beyond the size must reach the handler
     for D in (1, 2):
         envc, sgc = {}, {"ra": NONNEG, "u": NONNEG, "tt": NONNEG}
